@@ -97,8 +97,468 @@ def check_C03(ctx):
                                       parse={k: pio.get(k) for k in keys}, check={k: cio.get(k) for k in keys})
 
 
+# ---------------------------------------------------------------------------------------------
+# C01 / C02 / C07: three-way comparison  implementation  vs  Spec (Lean, authoritative)  vs  pest
+
+def parse_tokens(txt):
+    """'[(r 0 2 (x 0 1))]' -> nested lists [name, s, e, [children]]"""
+    import corpus
+    sx = corpus.parse_sexp("(" + txt.strip()[1:-1] + ")") if txt and txt.startswith("[") else []
+
+    def conv(t):
+        return [t[0], int(t[1]), int(t[2]), [conv(c) for c in t[3:]]]
+    return [conv(t) for t in sx]
+
+
+def prune(toks, atomic):
+    return [[t[0], t[1], t[2], [] if t[0] in atomic else prune(t[3], atomic)] for t in toks]
+
+
+def fws_grammar(ginfo):
+    """F-WS root cause: a WHITESPACE/COMMENT rule that is not declared @/$ and whose body contains
+    a sequence, a repetition or a rule reference (pest forces such bodies atomic, pest-typed does not)."""
+    import corpus
+    sx = corpus.parse_sexp(ginfo["sexp"]) if "sexp" in ginfo else None
+    if not sx:
+        return False
+    for r in sx[2:]:
+        if r[1] in ("WHITESPACE", "COMMENT") and r[2] not in ("atomic", "compound"):
+            def risky(e):
+                if isinstance(e, list):
+                    if e[0] in ("seq", "rep", "reponce", "repexact", "repmin", "repmax", "repminmax"):
+                        return True
+                    if e[0] == "ident" and e[1] not in ("ANY", "SOI", "EOI", "NEWLINE") and not e[1].startswith("ASCII"):
+                        return True
+                    return any(risky(c) for c in e[1:])
+                return False
+            if risky(r[3]):
+                return True
+    return False
+
+
+def threeway(ctx, res, want_tokens, gid_filter=None, want_stack=False):
+    """Shared oracle of C01 (verdict/offset), C02 (token tree) and C07 (same, on skip-relevant grammars)."""
+    stats = {"pest_eq_spec": 0, "pest_panic": 0, "pest_ne_spec_stack": 0, "spec_oof": 0, "accepted": 0, "rejected": 0}
+    for c, io, mo in res.rows():
+        if c[2] != "parse_partial" or c[3] != "str":
+            continue
+        if gid_filter and not gid_filter(c[0]):
+            continue
+        ginfo = res.grammars[c[0]]
+        spec = mo.get("spec")
+        if spec is None:
+            continue
+        if spec == "oof":
+            stats["spec_oof"] += 1
+            continue
+        sp = spec.split(":", 2)
+        exp_v, exp_end = ("ok", sp[1]) if sp[0] == "ok" else ("fail", None)
+        pest = io.get("pest")
+        fws = fws_grammar(ginfo)
+        if pest is not None:
+            if pest == "panic":
+                stats["pest_panic"] += 1
+            else:
+                pv, pend = ("ok", pest.split(":")[1]) if pest.startswith("ok:") else ("fail", None)
+                if (pv, pend) == (exp_v, exp_end):
+                    stats["pest_eq_spec"] += 1
+                elif ginfo.get("uses_stack"):
+                    # pest leaves out a stack restore / its Stack loses a pop: the property sends these to PEG semantics
+                    stats["pest_ne_spec_stack"] += 1
+                else:
+                    ctx.tie_broken("Spec-vs-pest", {"case": case_dict(c), "pest": pest[:200], "spec": spec,
+                                                    "note": "the reference semantics disagrees with pest on a stack-free grammar: the Spec is wrong, nothing is shown"})
+        ctx.count(c, io.get("v") == "ok" and io.get("end") != "0")
+        ctx.sample(c, io)
+        stats["accepted" if exp_v == "ok" else "rejected"] += 1
+        got = (io.get("v"), io.get("end") if io.get("v") == "ok" else None)
+        if got != (exp_v, exp_end):
+            ctx.violation("verdict/offset differs from pest semantics" + (" [skip rule not atomic]" if fws else ""), c,
+                          impl={"v": io.get("v"), "end": io.get("end")}, expected={"v": exp_v, "end": exp_end, "authority": "Spec (Lean), pest=" + str(pest)[:80]}, fws=fws)
+        elif want_stack and exp_v == "ok" and io.get("stk") != sp[2]:
+            ctx.violation("final stack differs from backtracking PEG semantics", c, impl=io.get("stk"), expected=sp[2])
+        elif want_tokens and exp_v == "ok" and pest and pest.startswith("ok:"):
+            atomic = {n for n, k in ginfo["rules"] if k in ("atomic", "compound")}
+            ptoks = prune(parse_tokens(pest.split(":", 2)[2]), atomic)
+            itoks = parse_tokens(io.get("tok", "[]"))
+            if ptoks != itoks:
+                ctx.violation("token tree differs from pest's pruned tree" + (" [skip rule not atomic]" if fws else ""), c,
+                              impl=io.get("tok"), expected=pest.split(":", 2)[2], fws=fws)
+    ctx.coverage.setdefault("distribution", {}).update(stats)
+
+
+RUN_RULE = ("T-run corpus: systematic grammars (every operator, rule kind, built-in, stack op, counted repetition, recursion, multi-byte "
+            "literals, the 5^3 x 4 kind-nesting family) + seeded random grammars (plain / stack-heavy / recursive / multi-byte), inputs = all "
+            "strings up to length 4 (quick) / 5 (thorough) over each grammar's alphabet + random longer ones; every case runs the derived "
+            "pest-typed parser, pest_derive's parser of the same grammar and the Lean Spec; non-trivial = accepted with a non-empty match; "
+            "distinct by (grammar, rule, input)")
+
+
+def check_C01(ctx):
+    ctx.rule_text = RUN_RULE
+    res = suites.suite_run(ctx.tier, ctx.seed)
+    ctx.tie("T-run:verdict-offset", res, ["v", "end"], lambda c: c[2] == "parse_partial")
+    threeway(ctx, res, want_tokens=False)
+
+
+def check_C02(ctx):
+    ctx.rule_text = RUN_RULE
+    res = suites.suite_run(ctx.tier, ctx.seed)
+    ctx.tie("T-run:tokens", res, ["v", "tok"], lambda c: c[2] in ("parse_partial", "parse"))
+    threeway(ctx, res, want_tokens=True)
+
+
+def check_C07(ctx):
+    ctx.rule_text = RUN_RULE + "; restricted to grammars that define WHITESPACE/COMMENT or belong to the kind-nesting family"
+    res = suites.suite_run(ctx.tier, ctx.seed)
+    skipg = {gid for gid, gi in res.grammars.items() if re.search(r"WHITESPACE|COMMENT", gi["text"]) or gid.startswith("s_kinds")}
+    ctx.tie("T-run:offsets-tokens", res, ["v", "end", "tok"], lambda c: c[0] in skipg and c[2] in ("parse_partial", "parse"))
+    threeway(ctx, res, want_tokens=True, gid_filter=lambda g: g in skipg)
+
+
+
+# ---------------------------------------------------------------------------------------------
+# raw suites with the independent python reference (C06, C19, parts of C05 / C17)
+
+def stack_texts(stk, s):
+    """'[0:1,1:3]' -> tuple of texts (byte offsets into s)"""
+    b = s.encode("utf-8")
+    out = []
+    for part in stk.strip("[]").split(","):
+        if part:
+            a, e = part.split(":")
+            out.append(b[int(a):int(e)].decode("utf-8"))
+    return tuple(out)
+
+
+def raw_oracle(ctx, res, gid_filter, what):
+    import rawgen
+    from .pyref import Ref
+    gs = {g["gid"]: g for g in rawgen.all_raw()}
+    refs = {}
+    hist = {"ok": 0, "fail": 0}
+    for c, io, mo in res.rows():
+        if c[2] != "parse_partial" or not gid_filter(c[0], c[1]):
+            continue
+        ref = refs.setdefault(c[0], Ref(gs[c[0]]))
+        exp = ref.run_rule(c[1], c[6])
+        got_v = io.get("v")
+        ctx.count(c, got_v == "ok" and (io.get("end") != "0" or io.get("stk") != "[]"))
+        ctx.sample(c, io)
+        hist["ok" if exp else "fail"] += 1
+        if exp is None:
+            if got_v != "fail":
+                ctx.violation(what + ": expected failure", c, impl={k: io.get(k) for k in ("v", "end", "stk")}, expected="fail (python reference)")
+        else:
+            got = (got_v, io.get("end"), stack_texts(io.get("stk", "[]"), c[6]) if got_v == "ok" else None)
+            if got != ("ok", str(exp[0]), exp[1]):
+                ctx.violation(what + ": wrong result", c, impl={k: io.get(k) for k in ("v", "end", "stk")},
+                              expected={"v": "ok", "end": exp[0], "stack_texts": list(exp[1])})
+    ctx.coverage.setdefault("distribution", {}).update(hist)
+
+
+def check_C06(ctx):
+    ctx.rule_text = ("T-raw: PUSH x depth (0..4) followed by PEEK[a..b] for every a in -6..6 and b in -6..6 or open, in atomic and "
+                     "non-atomic context, plus every stack built-in in both contexts; inputs = all strings up to length 4 (quick) / 6 (thorough) "
+                     "over {a, b, space} + random longer ones: the property's own quantifier, enumerated completely; oracle = independent "
+                     "python PEG evaluator stating the slice semantics of the property text; non-trivial = accepted with consumption or non-empty stack")
+    res = suites.suite_raw(ctx.tier, ctx.seed)
+    f = lambda c: c[0].startswith("slice_") or c[0].startswith("stackops_")
+    ctx.tie("T-raw:stack-nodes", res, ["v", "end", "stk", "trk"], f)
+    raw_oracle(ctx, res, lambda g, r: g.startswith("slice_") or g.startswith("stackops_"), "stack operation")
+    ctx.coverage["exhaustive"] = True
+    # generator-level: the derived grammars of the T-run corpus that use the stack, against the Spec
+    run = suites.suite_run(ctx.tier, ctx.seed)
+    stackg = {gid for gid, gi in run.grammars.items() if gi.get("uses_stack")}
+    ctx.tie("T-run:stack-grammars", run, ["v", "end", "stk", "trk"], lambda c: c[0] in stackg)
+    threeway(ctx, run, want_tokens=False, gid_filter=lambda g: g in stackg, want_stack=True)
+
+
+def check_C19(ctx):
+    ctx.rule_text = ("T-raw: RepeatMin / RepeatMinMax for MIN, MAX in 0..4 x skip on/off x element kinds (string, choice, nested repetition, "
+                     "stack op), arrays, pairs, optionals, skip-n-chars, skip-repeat; inputs = all strings up to length 4 (quick) / 6 (thorough) over "
+                     "{a, b, space} + random ones up to length 8; oracle = independent python PEG evaluator (greedy, bounds, skip given back); "
+                     "parse and check compared model-free")
+    res = suites.suite_raw(ctx.tier, ctx.seed)
+    f = lambda c: c[0].startswith("rep_")
+    ctx.tie("T-raw:repetition", res, ["v", "end", "stk", "trk"], f)
+    raw_oracle(ctx, res, lambda g, r: g.startswith("rep_"), "bounded repetition / raw combinator")
+    for key, ent in group_by_input(res, f).items():
+        if "parse_partial" in ent and "check_partial" in ent:
+            (c, pio, _), (_, cio, _) = ent["parse_partial"], ent["check_partial"]
+            bad = [k for k in ("v", "end", "stk", "trk") if pio.get(k) != cio.get(k)]
+            if bad:
+                ctx.violation(f"parse vs check differ on {bad} for a raw combinator", c)
+    ctx.coverage["exhaustive"] = True
+
+
+def check_C05(ctx):
+    ctx.rule_text = RUN_RULE + "; restricted to grammars using PUSH/POP/DROP/PEEK (stack-heavy seeded mode pushes in every rule); oracle = Spec with immutable stack (cursor AND final stack contents), pest consulted where it returns"
+    run = suites.suite_run(ctx.tier, ctx.seed)
+    stackg = {gid for gid, gi in run.grammars.items() if gi.get("uses_stack")}
+    ctx.tie("T-run:stack-grammars", run, ["v", "end", "stk"], lambda c: c[0] in stackg)
+    threeway(ctx, run, want_tokens=False, gid_filter=lambda g: g in stackg, want_stack=True)
+    raw = suites.suite_raw(ctx.tier, ctx.seed)
+    ctx.tie("T-raw:restore-points", raw, ["v", "end", "stk"], lambda c: c[0] in ("rep_k", "stackops_n", "stackops_a"))
+    raw_oracle(ctx, raw, lambda g, r: g in ("rep_k", "stackops_n", "stackops_a"), "restore point")
+
+
+# ---------------------------------------------------------------------------------------------
+# C04
+
+def check_C04(ctx):
+    ctx.rule_text = RUN_RULE + "; for every (rule, input): try_parse vs (try_parse_partial, then the grammar's WHITESPACE/COMMENT rules applied repeatedly through their own public rule structs at the reached offset unless the rule is @/$, then end test); inputs include ones ending in skippable text and in text that only looks skippable"
+    res = suites.suite_run(ctx.tier, ctx.seed)
+    ctx.tie("T-run:full-entry", res, ["v", "stk", "trk", "tok"], lambda c: c[2] in ("parse", "check"))
+    # independent skip closure from the implementation's own answers for the skip rules
+    at = {}
+    for c, io, mo in res.rows():
+        if c[1] in ("WHITESPACE", "COMMENT") and c[2] == "parse_partial":
+            if c[3] == "pos":
+                at[(c[0], c[1], c[6], c[4])] = io
+            elif c[3] == "str":
+                at[(c[0], c[1], c[6], 0)] = io
+    hist = {"full_ok": 0, "full_fail": 0, "undecided": 0}
+    for key, ent in group_by_input(res, lambda c: c[3] == "str").items():
+        if "parse" not in ent or "parse_partial" not in ent:
+            continue
+        (c, fio, _), (_, pio, _) = ent["parse"], ent["parse_partial"]
+        gid, rule, s = c[0], c[1], c[6]
+        ginfo = res.grammars[gid]
+        if fws_grammar(ginfo):
+            continue
+        kind = dict(ginfo["rules"]).get(rule)
+        n = len(s.encode("utf-8"))
+        ctx.count(c, pio.get("v") == "ok")
+        ctx.sample(c, fio)
+        if pio.get("v") != "ok":
+            exp = False
+        else:
+            p = int(pio["end"])
+            if kind not in ("atomic", "compound"):
+                names = [x for x in ("WHITESPACE", "COMMENT") if x in dict(ginfo["rules"])]
+                moved, undecided = True, False
+                while moved:
+                    moved = False
+                    for x in names:
+                        o = at.get((gid, x, s, p))
+                        if o is None:
+                            undecided = True
+                            continue
+                        if o.get("v") == "ok" and int(o["end"]) > p:
+                            p = int(o["end"])
+                            moved = True
+                            break
+                if undecided and p != n:
+                    hist["undecided"] += 1
+                    continue
+            exp = p == n
+        got = fio.get("v") == "ok"
+        hist["full_ok" if got else "full_fail"] += 1
+        if got != exp:
+            ctx.violation("try_parse verdict differs from prefix + trailing skip + end test", c,
+                          impl=fio.get("v"), expected="ok" if exp else "fail", partial={k: pio.get(k) for k in ("v", "end")})
+        elif got and fio.get("tok") != pio.get("tok"):
+            ctx.violation("try_parse returns a different tree than try_parse_partial", c, full=fio.get("tok"), partial=pio.get("tok"))
+    ctx.coverage.setdefault("distribution", {}).update(hist)
+
+
+# ---------------------------------------------------------------------------------------------
+# C08
+
+def shift_tokens(toks, a):
+    return [[t[0], t[1] + a, t[2] + a, shift_tokens(t[3], a)] for t in toks]
+
+
+def shift_stack(stk, a):
+    out = []
+    for part in stk.strip("[]").split(","):
+        if part:
+            x, y = part.split(":")
+            out.append(f"{int(x) + a}:{int(y) + a}")
+    return "[" + ",".join(out) + "]"
+
+
+def check_C08(ctx):
+    ctx.rule_text = RUN_RULE + "; for every input of at most 3 characters every pair of character-boundary offsets a <= b: Span(s,a,b) and Position(s,a) results vs the result on a fresh copy of the slice (also in the corpus as a &str case), offsets shifted by a; partial and full entry points"
+    res = suites.suite_run(ctx.tier, ctx.seed)
+    ctx.tie("T-run:sub-inputs", res, ["v", "end", "stk", "trk", "tok"], lambda c: c[3] in ("pos", "span"))
+    fresh = {}
+    for c, io, mo in res.rows():
+        if c[3] == "str":
+            fresh[(c[0], c[1], c[2], c[6])] = io
+    for c, io, mo in res.rows():
+        if c[3] not in ("pos", "span"):
+            continue
+        b = c[6].encode("utf-8")
+        a = c[4]
+        e = c[5] if c[3] == "span" else len(b)
+        sl = b[a:e].decode("utf-8")
+        f = fresh.get((c[0], c[1], c[2], sl))
+        if f is None:
+            continue
+        ctx.count(c, io.get("v") == "ok" and io.get("end") != str(a) or a > 0)
+        ctx.sample(c, io)
+        exp = {"v": f.get("v")}
+        if f.get("v") == "ok":
+            if "end" in f:
+                exp["end"] = str(int(f["end"]) + a)
+            exp["stk"] = shift_stack(f.get("stk", "[]"), a)
+            if "tok" in f:
+                exp["tok"] = shift_tokens(parse_tokens(f["tok"]), a)
+        got = {"v": io.get("v")}
+        if io.get("v") == "ok":
+            if "end" in io:
+                got["end"] = io["end"]
+            got["stk"] = io.get("stk", "[]")
+            if "tok" in io:
+                got["tok"] = parse_tokens(io["tok"])
+        if got != exp:
+            ctx.violation("sub-input result differs from the fresh slice shifted by a", c, impl=got, fresh_shifted=exp, slice=sl)
+
+
+# ---------------------------------------------------------------------------------------------
+# C09 / C10
+
+def on_boundary(s_bytes, off):
+    return 0 <= off <= len(s_bytes) and (off == len(s_bytes) or (s_bytes[off] & 0xC0) != 0x80)
+
+
+def offsets_of(io):
+    offs = []
+    if "end" in io:
+        offs.append(("cursor", int(io["end"])))
+    for part in io.get("stk", "[]").strip("[]").split(","):
+        if part:
+            x, y = part.split(":")
+            offs += [("stack span start", int(x)), ("stack span end", int(y))]
+            if int(x) > int(y):
+                offs.append(("stack span inverted", -1))
+    if "tok" in io:
+        def walk(ts):
+            for t in ts:
+                offs.append(("token start", t[1]))
+                offs.append(("token end", t[2]))
+                if t[1] > t[2]:
+                    offs.append(("token span inverted", -1))
+                walk(t[3])
+        walk(parse_tokens(io["tok"]))
+    if "trk" in io:
+        offs.append(("error position", int(io["trk"].split("|")[0])))
+    return offs
+
+
+def offsets_oracle(ctx, res, label):
+    hist = {"panic": 0, "timeout": 0}
+    for c, io, mo in res.rows():
+        b = c[6].encode("utf-8")
+        lo = c[4] if c[3] in ("pos", "span") else 0
+        hi = c[5] if c[3] == "span" else len(b)
+        v = io.get("v")
+        ctx.count(c, any(ch >= 0x80 for ch in b) or nontrivial_obs(io))
+        if v in ("panic", "crash", "timeout", "missing"):
+            hist["panic" if v != "timeout" else "timeout"] += 1
+            ctx.violation(f"entry point did not return ({v}) [{label}]", c)
+            continue
+        for what, off in offsets_of(io):
+            if off < lo or off > hi or not on_boundary(b, off):
+                ctx.violation(f"{what} out of range or off a character boundary [{label}]", c, offset=off, range=[lo, hi])
+                break
+        else:
+            ctx.sample(c, io)
+    ctx.coverage.setdefault("distribution", {}).update({label + "_" + k: v for k, v in hist.items()})
+
+
+def check_C09(ctx):
+    ctx.rule_text = RUN_RULE + "; every reported offset (cursor, stack spans, token spans, tracker position) of every case is tested for range and is_char_boundary; every case runs under catch_unwind with a watchdog; debug profile in the quick tier, debug and release in the thorough tier; non-trivial = input has a multi-byte character or the run consumed / recorded something"
+    res = suites.suite_run(ctx.tier, ctx.seed)
+    ctx.tie("T-run:all-observables", res, ["v", "end", "stk", "trk", "tok"])
+    offsets_oracle(ctx, res, "dev")
+    raw = suites.suite_raw(ctx.tier, ctx.seed)
+    ctx.tie("T-raw:all-observables", raw, ["v", "end", "stk", "trk", "tok"])
+    offsets_oracle(ctx, raw, "dev-raw")
+    rel = suites.suite_run_release(ctx.tier, ctx.seed)
+    ctx.tie("T-run-release:all-observables", rel, ["v", "end", "stk", "trk", "tok"])
+    offsets_oracle(ctx, rel, "release")
+    ctx.assumptions.append("memory safety of get_unchecked itself cannot be exhibited by the model: proved is the arithmetic precondition (in range, on a boundary) that makes the unchecked slicing sound")
+
+
+def check_C10(ctx):
+    ctx.rule_text = RUN_RULE + "; every rejected case: location in range / on a boundary / not before the end of the matched prefix; same report when the case is repeated (each case appears under parse and check and in several batches); for grammars without stack operations and without implicit skipping every rule listed as expected (unexpected) is re-run at the reported offset through its own rule struct and must fail (match)"
+    res = suites.suite_run(ctx.tier, ctx.seed)
+    ctx.tie("T-run:tracker", res, ["v", "trk"])
+    at = {}
+    for c, io, mo in res.rows():
+        if c[2] == "parse_partial" and c[3] in ("pos", "str"):
+            at[(c[0], c[1], c[6], c[4] if c[3] == "pos" else 0)] = io.get("v")
+    hist = {"rejected": 0, "expected_checked": 0, "unexpected_checked": 0}
+    for key, ent in group_by_input(res).items():
+        for en in ("parse", "parse_partial", "check", "check_partial"):
+            if en not in ent:
+                continue
+            c, io, mo = ent[en]
+            if io.get("v") != "fail":
+                continue
+            hist["rejected"] += 1
+            b = c[6].encode("utf-8")
+            lo = c[4] if c[3] in ("pos", "span") else 0
+            hi = c[5] if c[3] == "span" else len(b)
+            pos = int(io["trk"].split("|")[0])
+            ctx.count(c, pos > lo)
+            ctx.sample(c, io)
+            if pos < lo or pos > hi or not on_boundary(b, pos):
+                ctx.violation("error location out of range or off a character boundary", c, position=pos)
+                continue
+            if en == "parse" and "parse_partial" in ent and ent["parse_partial"][1].get("v") == "ok":
+                pend = int(ent["parse_partial"][1]["end"])
+                if pos < pend:
+                    ctx.violation("error location lies before the end of the matched prefix", c, position=pos, prefix_end=pend)
+            ginfo = res.grammars[c[0]]
+            simple = not ginfo.get("uses_stack") and not re.search(r"WHITESPACE|COMMENT|SOI", ginfo["text"]) and c[3] != "span"
+            if simple and en in ("parse", "parse_partial"):
+                for part in io["trk"].split("|", 1)[1].split(";"):
+                    if not part:
+                        continue
+                    upper, rest = part.split(":", 1)
+                    positives, negatives, _ = rest.split("/")
+                    for r in filter(None, positives.split(",")):
+                        v = at.get((c[0], r, c[6], pos)) if r != "EOI" else ("ok" if pos == hi else "fail")
+                        if v is not None:
+                            hist["expected_checked"] += 1
+                            if v == "ok":
+                                ctx.violation("rule listed as expected matches at the reported location", c, rule=r, position=pos)
+                    for r in filter(None, negatives.split(",")):
+                        v = at.get((c[0], r, c[6], pos)) if r != "EOI" else ("ok" if pos == hi else "fail")
+                        if v is not None:
+                            hist["unexpected_checked"] += 1
+                            if v == "fail":
+                                ctx.violation("rule listed as unexpected fails at the reported location", c, rule=r, position=pos)
+    ctx.coverage.setdefault("distribution", {}).update(hist)
+    ctx.assumptions.append("rendering of the message (line/column arithmetic) is covered by C12-C14's model; here the location and the attempt lists are checked")
+
+
+def _lazy(modname, fn):
+    def run(ctx):
+        import importlib
+        return getattr(importlib.import_module("checks." + modname), fn)(ctx)
+    return run
+
+
 CHECKS = {
+    "C12": _lazy("text", "check_C12"),
+    "C13": _lazy("text", "check_C13"),
+    "C14": _lazy("text", "check_C14"),
+    "C01": check_C01,
+    "C04": check_C04,
+    "C05": check_C05,
+    "C06": check_C06,
+    "C08": check_C08,
+    "C09": check_C09,
+    "C10": check_C10,
+    "C19": check_C19,
+    "C02": check_C02,
     "C03": check_C03,
+    "C07": check_C07,
 }
 
 
